@@ -10,7 +10,7 @@ from lib.progs import corpus, CORPUS
 from props.C11 import stage_translate
 
 LEVEL = 'proof'
-HDR = ('From Coq Require Import List String Bool Arith.\nFrom PF Require Import models.Traverse models.Walk gen.TraverseTables.\nImport ListNotations.\n'
+HDR = ('From Coq Require Import List String Bool Arith.\nFrom PF Require Import models.Traverse models.Walk models.WalkShallowModes gen.TraverseTables.\nImport ListNotations.\n'
        'Local Open Scope string_scope.\n'
        'Fixpoint lookup (c : string) (t : list (string * option (list citem))) : option (option (list citem)) :=\n'
        '  match t with [] => None | (k, v) :: r => if String.eqb c k then Some v else lookup c r end.\n'
@@ -152,7 +152,7 @@ def stage_walk_corr(ctx: Ctx, progs):
         all_ = rng.choice([True, False, 'loc', ast.Name, {ast.Name, ast.Call, ast.If, ast.Assign}])
         on = rng.choice(['enter', 'enter', 'leave', 'both'])
         back = rng.random() < 0.4
-        recurse = True if on != 'enter' else rng.random() < 0.75
+        recurse = rng.random() < 0.75
         ids = {}
         lit = rtree_lit(start, syntax_ordered_children, lambda a: bool(_check_all_param(a.f, all_)), ids)
         if len(ids) > 400:
@@ -164,15 +164,21 @@ def stage_walk_corr(ctx: Ctx, progs):
             continue
         if on == 'both':
             exp = '[' + '; '.join(f'({ids[id(f.a)]}, {cbool(b)})' for f, b in got) + ']'
-            model = f'walk_both {cbool(back)} ({lit})'
-            if back:
-                continue  # back+both / back+leave have no theorem; compared through mirror below
-            terms.append(f'lnb_eqb ({model}) {exp}')
+            if not recurse:
+                terms.append(f'lnb_eqb (walk_both_r {cbool(back)} false ({lit})) {exp}')      # models/WalkShallowModes.v
+            else:
+                model = f'walk_both {cbool(back)} ({lit})'
+                if back:
+                    continue  # back+both / back+leave have no theorem; compared through mirror below
+                terms.append(f'lnb_eqb ({model}) {exp}')
         elif on == 'leave':
-            if back:
-                continue
             exp = '[' + '; '.join(str(ids[id(f.a)]) for f in got) + ']'
-            terms.append(f'ln_eqb (walk_leave false ({lit})) {exp}')
+            if not recurse:
+                terms.append(f'ln_eqb (walk_leave_r {cbool(back)} false ({lit})) {exp}')
+            else:
+                if back:
+                    continue
+                terms.append(f'ln_eqb (walk_leave false ({lit})) {exp}')
         else:
             exp = '[' + '; '.join(str(ids[id(f.a)]) for f in got) + ']'
             terms.append(f'ln_eqb (walk_enter {cbool(back)} {cbool(recurse)} ({lit})) {exp}')
